@@ -324,7 +324,10 @@ def generate_all(specs, d, keep_sdk=True):
     that directory and of the workspace root manifest are taken before each run and compared after a
     failing run.
     """
-    write_blueprints(specs, d)
+    # a spec may name a PREDECESSOR blueprint (`pre_bp`): it is generated into the slot's output directory first, so that the
+    # spec itself is a regeneration in place over a chosen SDK (family `regen`)
+    pre = [{"id": s["id"] + "__pre", "family": s.get("family"), "bp": s["pre_bp"]} for s in specs if s.get("pre_bp")]
+    write_blueprints(specs + pre, d)
     gen_dir = f"{d}/gen"
     shutil.rmtree(gen_dir, ignore_errors=True)
     os.makedirs(gen_dir, exist_ok=True)
@@ -339,6 +342,12 @@ def generate_all(specs, d, keep_sdk=True):
         try:
             s = slots[k]
             sid = spec["id"]
+            if spec.get("pre_bp"):
+                try:
+                    subprocess.run(pavexc_cmd(s, f"{d}/bps/{sid}__pre.ron", f"{s}/sdk"), cwd=s, env=pavexc_env(), stdout=subprocess.DEVNULL,
+                                   stderr=subprocess.DEVNULL, timeout=PAVEXC_TIMEOUT_S)
+                except subprocess.TimeoutExpired:
+                    pass
             before = dir_digest(f"{s}/sdk")
             root_before = sha256_file(f"{s}/Cargo.toml")
             t0 = time.time()
